@@ -147,6 +147,14 @@ func init() {
 	reg("time.Since", func(in *Interp, c *Frame, fn *ssa.Function, a []Value) Value { return in.st.Const(64, 0) })
 	reg("time.Now", func(in *Interp, c *Frame, fn *ssa.Function, a []Value) Value { return in.zero(fn.Signature.Results().At(0).Type()) })
 
+	// ---------- sourcegraph/conc: goroutines run to completion at the spawn point ----------
+	reg("(*github.com/sourcegraph/conc.WaitGroup).Go", func(in *Interp, c *Frame, fn *ssa.Function, a []Value) Value {
+		in.callClosure(a[1].(*Closure), nil, c)
+		return nil
+	})
+	reg("(*github.com/sourcegraph/conc.WaitGroup).Wait", nop)
+	reg("(*github.com/sourcegraph/conc.WaitGroup).WaitAndRecover", nop)
+
 	// ---------- sync ----------
 	for _, n := range []string{"(*sync.Mutex).Lock", "(*sync.Mutex).Unlock", "(*sync.RWMutex).Lock", "(*sync.RWMutex).Unlock",
 		"(*sync.RWMutex).RLock", "(*sync.RWMutex).RUnlock", "(*sync.WaitGroup).Add", "(*sync.WaitGroup).Done", "(*sync.WaitGroup).Wait",
